@@ -1080,16 +1080,25 @@ fn doc_binds(rng: &mut Rng) -> String {
 fn kill_keys(rng: &mut Rng, vi: bool, insert_mode: &mut bool, out: &mut Vec<String>) {
     if vi {
         if *insert_mode {
-            out.push(format!("1b{:02x}", *rng.pick(b"hb0")));
-            *insert_mode = false;
+            match rng.below(10) {
+                // the emacs kill / yank keys that vi insert mode keeps: C-w, C-u, C-y
+                0..=2 => out.push(rng.pick(&["17", "17", "15", "19"]).to_string()),
+                3 => out.push(tok_char(*rng.pick(TEXT))),
+                _ => {
+                    out.push(format!("1b{:02x}", *rng.pick(b"hb0")));
+                    *insert_mode = false;
+                }
+            }
             return;
         }
-        if rng.chance(3, 10) {
+        if rng.chance(4, 10) {
             // a run of kills with nothing in between (character searches in both directions
-            // over-represented: their direction decides append / prepend), then a paste probe
+            // over-represented: their direction decides append / prepend; C-w / C-u / C-k / D are
+            // kills whatever the oracle can see of them), sometimes with one non-kill command
+            // inside the run (a character delete, a copy, a motion), then a paste probe
             let k = 2 + rng.below(2);
-            for _ in 0..k {
-                match rng.below(10) {
+            for i in 0..k {
+                match rng.below(14) {
                     0..=4 => {
                         out.push("64".to_string());
                         out.push(tok_char(*rng.pick(&['f', 't', 'F', 'T', 'F', 'T'])));
@@ -1099,7 +1108,28 @@ fn kill_keys(rng: &mut Rng, vi: bool, insert_mode: &mut bool, out: &mut Vec<Stri
                         out.push("64".to_string());
                         vi_motion(rng, out);
                     }
-                    _ => out.push("44".to_string()),
+                    9 => out.push("44".to_string()),
+                    10 | 11 => out.push(rng.pick(&["17", "15", "0b"]).to_string()),
+                    12 => {
+                        out.push("64".to_string());
+                        out.push("64".to_string());
+                    }
+                    _ => {
+                        // c + motion, back to command mode at once (Alt-<key> = fast command mode)
+                        out.push("63".to_string());
+                        out.push(format!("{:02x}", *rng.pick(b"wbe$0")));
+                        out.push(format!("1b{:02x}", *rng.pick(b"lh")));
+                    }
+                }
+                if i + 1 < k && rng.chance(1, 6) {
+                    match rng.below(3) {
+                        0 => out.push(rng.pick(&["78", "58", "1b5b337e"]).to_string()),
+                        1 => {
+                            out.push("79".to_string());
+                            out.push(format!("{:02x}", *rng.pick(b"wbe$0y")));
+                        }
+                        _ => out.push(format!("{:02x}", *rng.pick(b"hl0$"))),
+                    }
                 }
             }
             out.push(rng.pick(&["50", "70"]).to_string());
@@ -1121,7 +1151,12 @@ fn kill_keys(rng: &mut Rng, vi: bool, insert_mode: &mut bool, out: &mut Vec<Stri
                 }
             }
             5 => out.push("44".to_string()),
-            6 | 7 => out.push(rng.pick(&["50", "70"]).to_string()),
+            6 | 7 => {
+                if rng.chance(1, 4) {
+                    out.push(format!("{:02x}", b'2' + rng.below(2) as u8));
+                }
+                out.push(rng.pick(&["50", "70"]).to_string());
+            }
             8 => out.push(format!("{:02x}", *rng.pick(b"xXhlwb0$"))),
             _ => out.push("50".to_string()),
         }
@@ -1141,6 +1176,10 @@ fn kill_keys(rng: &mut Rng, vi: bool, insert_mode: &mut bool, out: &mut Vec<Stri
                 out.push(rng.pick(&["0b", "15", "17", "1b64", "1b7f", "0b", "17"]).to_string());
             }
             if rng.chance(3, 4) {
+                // sometimes a counted yank (n copies): the yank-pop after it has to replace all of them
+                if rng.chance(1, 4) {
+                    out.push(format!("1b{:02x}", b'2' + rng.below(2) as u8));
+                }
                 out.push("19".to_string());
                 let pops = rng.below(4);
                 for _ in 0..pops {
